@@ -54,6 +54,6 @@ def run(chk):
         functions_encoded="src/parser.rs `Rule::NUMBER_ANY` arm (slice sha256 %s, %s lines) + core::num / str parsing" % (sl.get("sha256"), sl.get("lines")),
         timeout=tmo, bounds="0x + <= 33 symbolic hex digits; <= 40 symbolic decimal digits")) for n in names],
         logdir=os.path.join(core.CACHE, "logs", "C12"))
-    rend = {"c12_hex_literal": lit_replay("int"), "c12_decimal_literal": lit_replay("int")}
+    rend = {"c12_hex_literal": lit_replay("int")}
     core.triage(chk, crate, obs, rend, excl_factory=lambda cfgs: kunit.prepare(chk, rustflags=" ".join("--cfg " + c for c in cfgs)))
     return chk.finish(out_of_claim=OUT)
